@@ -35,6 +35,7 @@ type Case struct {
 	BodyLen  int      `json:"body_len"`
 	Warmup   int      `json:"warmup"` // successful requests before the faults are installed
 	Method   string   `json:"method"`
+	Chunked  bool     `json:"chunked"` // the client sends its body with chunked transfer encoding
 }
 
 func getRig(c Case) (*rig.Rig, error) {
@@ -64,7 +65,11 @@ type tryBreaker interface {
 
 func send(r *rig.Rig, c Case, nonce string, body []byte) (*rawclient.Response, error) {
 	hs := [][2]string{{"Content-Type", "application/json"}, {"X-Verif-Nonce", nonce}, {"X-Custom-A", "va"}, {"X-Custom-A", "vb"}, {"Accept", "application/json"}, {"Connection", "close"}}
-	req := rawclient.Request(c.Method, "/olla/proxy/v1/chat/completions?x=1&y=%20z", hs, body, nil)
+	var plan []int
+	if c.Chunked && len(body) > 0 {
+		plan = []int{len(body)/3 + 1, len(body) / 3}
+	}
+	req := rawclient.Request(c.Method, "/olla/proxy/v1/chat/completions?x=1&y=%20z", hs, body, plan)
 	return rawclient.Do(r.S.Addr, req, 15*time.Second)
 }
 
@@ -174,7 +179,7 @@ func runCase(c Case) []ev.Violation {
 			anyOK = true
 		}
 	}
-	desc := fmt.Sprintf("engine=%s balancer=%s candidates(desc. priority)=%v warmup=%d %s body=%dB -> status %d endpoint=%q body %q", c.Engine, c.Balancer, c.Outcomes, c.Warmup, c.Method, len(body), resp.Status, resp.Get("X-Olla-Endpoint"), trunc(resp.Body, 90))
+	desc := fmt.Sprintf("engine=%s balancer=%s candidates(desc. priority)=%v warmup=%d %s chunked=%v body=%dB -> status %d endpoint=%q body %q", c.Engine, c.Balancer, c.Outcomes, c.Warmup, c.Method, c.Chunked, len(body), resp.Status, resp.Get("X-Olla-Endpoint"), trunc(resp.Body, 90))
 	tag := c.Engine + "/" + strings.Join(c.Outcomes, ",")
 
 	// who saw what
@@ -209,7 +214,7 @@ func runCase(c Case) []ev.Violation {
 			failingFirst = c.Outcomes[firstIdx] != "ok"
 		}
 		if failingFirst {
-			rec.NT(fmt.Sprintf("%s|%s|%v|w%d|%s", c.Engine, c.Balancer, c.Outcomes, c.Warmup, c.Method))
+			rec.NT(fmt.Sprintf("%s|%s|%v|w%d|%s|%v", c.Engine, c.Balancer, c.Outcomes, c.Warmup, c.Method, c.Chunked))
 		}
 	}
 	for _, o := range c.Outcomes {
@@ -235,6 +240,10 @@ func runCase(c Case) []ev.Violation {
 		}
 	}
 	clientFP := fmt.Sprintf("%s %s", c.Method, "/v1/chat/completions?x=1&y=%20z")
+	sum := sha256.Sum256(body)
+	if want != "" && !strings.HasSuffix(want, fmt.Sprintf("body=%s/%d", hex.EncodeToString(sum[:6]), len(body))) {
+		bad("forwarded-body-altered", "upstream saw %q, the client sent a %d-byte body with hash prefix %s: %s", want, len(body), hex.EncodeToString(sum[:6]), desc)
+	}
 	if want != "" && !strings.HasPrefix(want, clientFP) {
 		bad("forwarded-request-altered", "upstream saw %q, client sent %s...: %s", want, clientFP, desc)
 	}
@@ -387,7 +396,7 @@ func enumerate() {
 					if k%rec.Shards() != rec.Shard() {
 						continue
 					}
-					ev.Direct(rec, "failover", Case{Engine: e, Balancer: b, Outcomes: t, BodyLen: 64, Warmup: k % 2, Method: "POST"}, runCase)
+					ev.Direct(rec, "failover", Case{Engine: e, Balancer: b, Outcomes: t, BodyLen: 64, Warmup: k % 2, Method: "POST", Chunked: k%3 == 0}, runCase)
 				}
 			}
 		}
@@ -403,7 +412,7 @@ func genCase(t *rapid.T) Case {
 	n := rapid.IntRange(1, 3).Draw(t, "n")
 	c := Case{Engine: e, Balancer: rapid.SampledFrom([]string{"priority", "round-robin", "least-connections"}).Draw(t, "balancer"),
 		BodyLen: rapid.SampledFrom([]int{1, 17, 1024, 65536}).Draw(t, "bodylen"), Warmup: rapid.IntRange(0, 8).Draw(t, "warmup"),
-		Method: rapid.SampledFrom([]string{"POST", "POST", "PUT", "GET"}).Draw(t, "method")}
+		Method: rapid.SampledFrom([]string{"POST", "POST", "PUT", "GET"}).Draw(t, "method"), Chunked: rapid.Bool().Draw(t, "chunked")}
 	for i := 0; i < n; i++ {
 		c.Outcomes = append(c.Outcomes, rapid.SampledFrom(alpha).Draw(t, "outcome"))
 	}
